@@ -36,10 +36,15 @@ IsFix(kd) == kd.k \in {"f32", "f64"} \/ (kd.k = "null" /\ kd.of = "float")
 Comparable(kd) == kd.k \in {"bool", "int", "uint", "string"}
 
 \* ---- positions ----
-Positions == {"top", "field1", "field16", "field2048", "ptrfield", "slice", "slicefield", "sliceptr", "slice2",
-              "mapkey", "mapval", "mapptrval", "nested", "slicestruct", "protoslice", "protomapval"}
-HasField(p) == p \in {"field1", "field16", "field2048", "ptrfield", "nested", "slicestruct"}
+LenPositions == {"L_str", "L_bytes", "L_packed", "L_counted", "L_nested3", "L_map", "L_structslice"}    \* universe U4: length boundaries
+Positions == {"top", "field1", "field15", "field16", "field2047", "field2048", "ptrfield", "slice", "slicefield", "sliceptr", "slice2",
+              "mapkey", "mapval", "mapptrval", "nested", "slicestruct", "protoslice", "protomapval"} \cup LenPositions
+HasField(p) == p \in {"field1", "field15", "field16", "field2047", "field2048", "ptrfield", "nested", "slicestruct"}
+CONSTANT LenSweep      \* the container / string lengths swept by the U4 positions
+SweepQuick == (0..4) \cup (118..134) \cup (250..262)
+SweepThorough == 0..400
 KindsFor(p) ==
+  IF p \in LenPositions THEN {KS("string", "")} ELSE
   {kd \in Kinds :
      /\ (kd.opt # "" => HasField(p))
      /\ (kd.k = "null" => p \in {"field1", "field16", "nested", "mapval", "slicestruct"})
@@ -50,7 +55,8 @@ KindsFor(p) ==
      /\ (p \in {"slice", "slicefield", "slice2"} => ~(kd.k = "uint" /\ kd.w = 8))     \* the unnamed []uint8 is []byte
      /\ (p = "top" => kd.k # "null") }
 \* container lengths: -1 = nil, 0 = empty, 1, 2
-LensFor(p) == IF p \in {"slice", "slicefield", "sliceptr", "slice2", "mapkey", "mapval", "mapptrval", "slicestruct", "protoslice", "protomapval"}
+LensFor(p) == IF p \in LenPositions THEN LenSweep ELSE
+              IF p \in {"slice", "slicefield", "sliceptr", "slice2", "mapkey", "mapval", "mapptrval", "slicestruct", "protoslice", "protomapval"}
               THEN {-1, 0, 1, 2} ELSE IF p = "ptrfield" THEN {-1, 1} ELSE {1}
 
 \* ---- boundary values ----
@@ -92,6 +98,15 @@ TypeAt(p, kd) == LET K == RT(kd) IN
   CASE p = "top" -> K
     [] p = "field1" -> St(<<Fld(1, kd.opt, K)>>)
     [] p = "field16" -> St(<<Fld(16, kd.opt, K)>>)
+    [] p = "field15" -> St(<<Fld(15, kd.opt, K)>>)
+    [] p = "field2047" -> St(<<Fld(2047, kd.opt, K)>>)
+    [] p = "L_str" -> St(<<Fld(1, "", StrT), FldN("Y", 2, "", IntT)>>)
+    [] p = "L_bytes" -> St(<<Fld(1, "", [k |-> "bytes"]), FldN("Y", 2, "", IntT)>>)
+    [] p = "L_packed" -> St(<<Fld(1, "", [k |-> "slice", e |-> [k |-> "uint", w |-> 16]]), FldN("Y", 2, "", IntT)>>)
+    [] p = "L_counted" -> St(<<Fld(1, "", [k |-> "slice", e |-> StrT]), FldN("Y", 2, "", IntT)>>)
+    [] p = "L_nested3" -> St(<<Fld(1, "", St(<<Fld(1, "", St(<<Fld(1, "", StrT)>>)), FldN("Y", 2, "", IntT)>>)), FldN("Y", 2, "", IntT)>>)
+    [] p = "L_map" -> St(<<Fld(1, "", [k |-> "map", key |-> [k |-> "uint", w |-> 16], val |-> [k |-> "bool"]]), FldN("Y", 2, "", IntT)>>)
+    [] p = "L_structslice" -> [k |-> "slice", e |-> St(<<Fld(1, "", StrT), FldN("Y", 2, "", IntT)>>)]
     [] p = "field2048" -> St(<<Fld(2048, kd.opt, K)>>)
     [] p = "ptrfield" -> St(<<Fld(1, kd.opt, [k |-> "ptr", e |-> K])>>)
     [] p = "slice" -> [k |-> "slice", e |-> K]
@@ -113,7 +128,14 @@ Mp(n, es) == [nil |-> (n = -1), m |-> es]
 Pt(x) == [nil |-> FALSE, v |-> x]
 ValAt(p, n, a, b) ==
   CASE p = "top" -> a
-    [] p \in {"field1", "field16", "field2048"} -> <<a>>
+    [] p \in {"field1", "field15", "field16", "field2047", "field2048"} -> <<a>>
+    [] p = "L_str" -> <<Rep(n, 120), Seven>>
+    [] p = "L_bytes" -> <<[nil |-> FALSE, b |-> Rep(n, 9)], Seven>>
+    [] p = "L_packed" -> <<Sl(n, Rep(n, S(FALSE, <<1>>))), Seven>>
+    [] p = "L_counted" -> <<Sl(n, Rep(n, <<97>>)), Seven>>
+    [] p = "L_nested3" -> << << <<Rep(n, 120)>>, Seven >>, Seven >>
+    [] p = "L_map" -> <<Mp(n, [i \in 1..n |-> <<S(FALSE, NatLimbs(i)), TRUE>>]), Seven>>
+    [] p = "L_structslice" -> Sl(1, << <<Rep(n, 120), Seven>>, <<Rep(n, 120), ZeroInt>> >>)
     [] p = "ptrfield" -> IF n = -1 THEN <<[nil |-> TRUE, v |-> <<>>]>> ELSE <<Pt(a)>>
     [] p = "slice" -> Sl(n, Elems(n, a, b))
     [] p = "slicefield" -> <<Sl(n, Elems(n, a, b)), Seven>>
@@ -134,7 +156,7 @@ Next ==
   \/ st = "pos"  /\ \E p \in Positions : c' = [c EXCEPT !.pos = p] /\ st' = "kind"
   \/ st = "kind" /\ \E kd \in KindsFor(c.pos) : c' = [c EXCEPT !.kd = kd] /\ st' = "len"
   \/ st = "len"  /\ \E n \in LensFor(c.pos) : c' = [c EXCEPT !.n = n] /\ st' = "a"
-  \/ st = "a"    /\ \E a \in Vals(c.kd) : c' = [c EXCEPT !.a = a, !.b = a] /\ st' = IF NeedsB(c.pos, c.n) THEN "b" ELSE "cfg"
+  \/ st = "a"    /\ \E a \in (IF c.pos \in LenPositions THEN {<<>>} ELSE Vals(c.kd)) : c' = [c EXCEPT !.a = a, !.b = a] /\ st' = IF NeedsB(c.pos, c.n) THEN "b" ELSE "cfg"
   \/ st = "b"    /\ \E b \in Vals(c.kd) : (c.pos = "mapkey" => b # c.a) /\ c' = [c EXCEPT !.b = b] /\ st' = "cfg"
   \/ st = "cfg"  /\ \E g \in Cfgs : (g \in {"pa", "both"} => Resolve(TypeAt(c.pos, c.kd)).k = "struct")
                                     /\ c' = [c EXCEPT !.cfg = g] /\ st' = "done"
